@@ -324,3 +324,54 @@ def r10c(ctx):
         ctx.ok("_merge.Merge._lower~BroadcastJoin._layer:how", merge.module.loc(a[0][0]), f"both split by hash for how in {sorted(next(iter(sa_)))}")
     else:
         ctx.bad("_merge.Merge._lower~BroadcastJoin._layer:how", merge.module.loc(a[0][0]), f"Merge._lower shuffles the other side for how in {[sorted(s) for s in sa_]} but BroadcastJoin._layer splits by hash for how in {[sorted(s) for s in sb_]}: for the join kinds in the difference one side is hash-split and the other is not, so matches are lost on the broadcast plan only")
+
+
+# parameters that are accepted but not read on the reference tree (compat signatures, protocol slots): confirmed by reading
+R21A_UNUSED_OK = {
+    ("_collection.FrameBase.__array__", "dtype"), ("_collection.Series.describe", "include"), ("_collection.Series.describe", "exclude"),
+    ("_collection.Index.__array_wrap__", "context"), ("_concat.ConcatUnindexed.operation", "_kwargs"), ("_concat.ConcatUnindexed.operation", "axis"),
+    ("_concat.ConcatIndexed.operation", "_kwargs"), ("_expr._return_input", "divisions"), ("_expr.calc_divisions_for_align", "allow_shuffle"),
+    ("_expr.RenameSeries.operation", "sorted_index"), ("_expr.MinType.__le__", "other"), ("_groupby._median_groupby_aggregate", "group_keys"),
+    ("_groupby.Cov.combine", "levels"), ("_groupby.GroupByApply._shuffle_grp_func", "shuffled"), ("_groupby.Median._shuffle_grp_func", "shuffled"),
+    ("_groupby.GroupBy.cov", "shuffle_method"), ("_groupby.GroupBy.corr", "shuffle_method"), ("_groupby.GroupBy.rolling", "axis"),
+    ("_groupby.SeriesGroupBy.idxmin", "split_every"), ("_groupby.SeriesGroupBy.idxmin", "numeric_only"), ("_groupby.SeriesGroupBy.idxmax", "numeric_only"),
+    ("_reductions.TotalMemoryUsageFrame.reduction_combine", "is_dataframe"), ("_shuffle.SetIndexBlockwise.operation", "new_divisions"),
+}
+PROTOCOL_SLOTS = {"self", "cls", "parent", "dependents", "_", "index", "i", "args", "kwargs"}
+
+
+@rule(
+    "R21a",
+    ["C02", "C10"],
+    """PARAMETERS ARE CONSUMED: every named parameter of every function in the package is read somewhere in its body (protocol
+    slots such as parent / dependents / index and *args / **kwargs excepted; 23 compat parameters are a confirmed
+    table). An option that a user-facing method accepts but no longer forwards (na_position, ascending, dropna,
+    shuffle_method, split_out ...) is silently ignored: the result stops following the pandas meaning / the knob.""",
+)
+def r21a(ctx):
+    model = ctx.model
+    n = 0
+    for mod, cls, fn in model.all_functions():
+        if mod.name.endswith("_version") or mod.name.startswith("dask_expr.diagnostics"):
+            continue
+        body = [s for s in fn.body if not (isinstance(s, ast.Expr) and isinstance(s.value, ast.Constant))]
+        if len(body) == 1 and isinstance(body[0], (ast.Raise, ast.Pass)):
+            continue
+        if any(ast.unparse(d).endswith("abstractmethod") for d in fn.decorator_list):
+            continue
+        args = [a.arg for a in fn.args.posonlyargs + fn.args.args + fn.args.kwonlyargs]
+        names = {x.id for x in ast.walk(fn) if isinstance(x, ast.Name) and isinstance(x.ctx, (ast.Load, ast.Del))}
+        fq = qual(cls, fn) if cls is not None else f"{mod.name.split('.', 1)[-1]}.{fn.name}"
+        for a in args:
+            if a in PROTOCOL_SLOTS:
+                continue
+            n += 1
+            if a in names:
+                continue
+            cid = f"{fq}:param:{a}"
+            if (fq, a) in R21A_UNUSED_OK:
+                ctx.exempt(cid, mod.loc(fn), "accepted for signature compatibility, unused on the reference tree")
+            else:
+                ctx.bad(cid, mod.loc(fn), f"parameter `{a}` of {fq} is never read: the caller's value is silently ignored (it used to be forwarded, or the option is accepted without effect)")
+    ctx.ok("parameters read in their function", "", f"{n} parameters examined")
+    ctx.floor("parameters examined", n, 1500)
